@@ -20,128 +20,29 @@ import (
 	"github.com/scionproto/scion/pkg/slayers/path/scion"
 
 	"verifharness/vlib"
+	"verifharness/wiregen"
 )
 
-type feedback struct{ trunc bool }
-
-func (f *feedback) SetTruncated() { f.trunc = true }
-
-func b2s(b bool) string {
-	if b {
-		return "1"
-	}
-	return "0"
-}
-
-// ---- canonical dumps of real layer values -----------------------------------------------------
-
-func infoStr(i path.InfoField) string {
-	return fmt.Sprintf("%s.%s.%d.%d", b2s(i.Peer), b2s(i.ConsDir), i.SegID, i.Timestamp)
-}
-
-func hopStr(h path.HopField) string {
-	return fmt.Sprintf("%s.%s.%d.%d.%d.%s", b2s(h.IngressRouterAlert), b2s(h.EgressRouterAlert),
-		h.ExpTime, h.ConsIngress, h.ConsEgress, vlib.Hex(h.Mac[:]))
-}
-
-func metaWord(m scion.MetaHdr) uint32 {
-	return uint32(m.CurrINF&3)<<30 | uint32(m.CurrHF&63)<<24 | uint32(m.SegLen[0]&63)<<12 |
-		uint32(m.SegLen[1]&63)<<6 | uint32(m.SegLen[2]&63)
-}
-
-func rawStr(r *scion.Raw) string {
-	body := []byte{}
-	if len(r.Raw) >= 4 {
-		body = r.Raw[4:]
-	}
-	return fmt.Sprintf("%d %s", metaWord(r.PathMeta), vlib.Hex(body))
-}
-
-func pathStr(p path.Path) string {
-	switch v := p.(type) {
-	case empty.Path:
-		return "empty"
-	case *scion.Raw:
-		return "scion " + rawStr(v)
-	case *scion.Decoded:
-		b := make([]byte, v.Len())
-		if err := v.SerializeTo(b); err != nil {
-			return "scion-decoded-unserializable"
-		}
-		return fmt.Sprintf("scion %d %s", metaWord(v.PathMeta), vlib.Hex(b[4:]))
-	case *onehop.Path:
-		return fmt.Sprintf("onehop %s %s %s", infoStr(v.Info), hopStr(v.FirstHop), hopStr(v.SecondHop))
-	case *epic.Path:
-		return fmt.Sprintf("epic %d %d %s %s %s", v.PktID.Timestamp, v.PktID.Counter,
-			vlib.Hex(v.PHVF), vlib.Hex(v.LHVF), rawStr(v.ScionPath))
-	}
-	return fmt.Sprintf("unknown-path-%T", p)
-}
-
-func scionStr(s *slayers.SCION) string {
-	return fmt.Sprintf("%d %d %d %d %d %d %d %d %d %d %d %s %s %s", s.Version, s.TrafficClass, s.FlowID,
-		uint8(s.NextHdr), s.HdrLen, s.PayloadLen, uint8(s.PathType), uint8(s.DstAddrType),
-		uint8(s.SrcAddrType), uint64(s.DstIA), uint64(s.SrcIA), vlib.Hex(s.RawDstAddr),
-		vlib.Hex(s.RawSrcAddr), pathStr(s.Path))
-}
-
-// ---- real codec calls ---------------------------------------------------------------------------
-
-// realDecode runs SCION.DecodeFromBytes on a private copy of data.
-func realDecode(data []byte) (s *slayers.SCION, trunc bool, err error, panicked string) {
-	cp := append([]byte(nil), data...)
-	fb := &feedback{}
-	s = &slayers.SCION{}
-	res, ok := vlib.Safe(func() string {
-		err = s.DecodeFromBytes(cp, fb)
-		return ""
-	})
-	if !ok {
-		return nil, false, nil, res
-	}
-	return s, fb.trunc, err, ""
-}
-
-// realSerialize runs SCION.SerializeTo in front of payload.
-func realSerialize(s *slayers.SCION, payload []byte, fix bool) (out []byte, err error, panicked string) {
-	res, ok := vlib.Safe(func() string {
-		buf := gopacket.NewSerializeBuffer()
-		if len(payload) > 0 {
-			b, _ := buf.PrependBytes(len(payload))
-			copy(b, payload)
-		}
-		err = s.SerializeTo(buf, gopacket.SerializeOptions{FixLengths: fix})
-		if err == nil {
-			out = append([]byte(nil), buf.Bytes()...)
-		}
-		return ""
-	})
-	if !ok {
-		return nil, nil, res
-	}
-	return out, err, ""
-}
-
 func decAnswer(data []byte) string {
-	s, trunc, err, pn := realDecode(data)
+	s, trunc, err, pn := wiregen.RealDecode(data)
 	if pn != "" {
 		return pn
 	}
 	if err != nil {
-		return "err " + b2s(trunc)
+		return "err " + wiregen.B2s(trunc)
 	}
-	return fmt.Sprintf("ok %s pld=%d", scionStr(s), len(s.Payload))
+	return fmt.Sprintf("ok %s pld=%d", wiregen.ScionStr(s), len(s.Payload))
 }
 
 func rtAnswer(data []byte) string {
-	s, trunc, err, pn := realDecode(data)
+	s, trunc, err, pn := wiregen.RealDecode(data)
 	if pn != "" {
 		return pn
 	}
 	if err != nil {
-		return "err " + b2s(trunc)
+		return "err " + wiregen.B2s(trunc)
 	}
-	out, err, pn := realSerialize(s, s.Payload, false)
+	out, err, pn := wiregen.RealSerialize(s, s.Payload, false)
 	if pn != "" {
 		return pn
 	}
@@ -180,94 +81,6 @@ func maskReserved(x []byte) []byte {
 		and(off+17, 0x03)
 	}
 	return m
-}
-
-// ---- value generation -------------------------------------------------------------------------
-
-var nextHdrs = []uint8{17, 202, 200, 201, 203, 6, 0, 253}
-
-func genInfo(r *vlib.Rand) path.InfoField {
-	return path.InfoField{Peer: r.Bool(), ConsDir: r.Bool(), SegID: uint16(r.U64()), Timestamp: uint32(r.U64())}
-}
-
-func genHop(r *vlib.Rand) path.HopField {
-	h := path.HopField{IngressRouterAlert: r.Bool(), EgressRouterAlert: r.Bool(), ExpTime: uint8(r.U64()),
-		ConsIngress: uint16(r.U64()), ConsEgress: uint16(r.U64())}
-	copy(h.Mac[:], r.Bytes(6))
-	return h
-}
-
-var segChoices = []int{1, 1, 2, 2, 3, 4, 5, 8, 20, 31, 61, 62, 63} // SegLen is a 6-bit field
-
-// genScionPath builds a scion.Decoded with a shape Base.DecodeFromBytes accepts.
-func genScionPath(r *vlib.Rand) *scion.Decoded {
-	d := &scion.Decoded{}
-	ninf := 1 + r.Intn(3)
-	tot := 0
-	for i := 0; i < ninf; i++ {
-		l := segChoices[r.Intn(len(segChoices))]
-		if tot+l+(ninf-1-i) > 64 {
-			l = 1 + r.Intn(min(63, 64-tot-(ninf-1-i)))
-		}
-		d.PathMeta.SegLen[i] = uint8(l)
-		tot += l
-		d.InfoFields = append(d.InfoFields, genInfo(r))
-	}
-	d.NumINF, d.NumHops = ninf, tot
-	for i := 0; i < tot; i++ {
-		d.HopFields = append(d.HopFields, genHop(r))
-	}
-	if r.Chance(70) {
-		d.PathMeta.CurrHF = uint8(r.Intn(tot))
-		d.PathMeta.CurrINF = uint8(r.Intn(ninf))
-	} else { // any pointer values decode
-		d.PathMeta.CurrHF = uint8(r.Intn(64))
-		d.PathMeta.CurrINF = uint8(r.Intn(4))
-	}
-	return d
-}
-
-func genPath(r *vlib.Rand) (path.Path, string) {
-	switch r.Intn(10) {
-	case 0:
-		return empty.Path{}, "empty"
-	case 1, 2:
-		return &onehop.Path{Info: genInfo(r), FirstHop: genHop(r), SecondHop: genHop(r)}, "onehop"
-	case 3, 4:
-		raw, err := genScionPath(r).ToRaw()
-		if err != nil {
-			panic(err)
-		}
-		return &epic.Path{PktID: epic.PktID{Timestamp: uint32(r.U64()), Counter: uint32(r.U64())},
-			PHVF: r.Bytes(4), LHVF: r.Bytes(4), ScionPath: raw}, "epic"
-	case 5, 6:
-		raw, err := genScionPath(r).ToRaw()
-		if err != nil {
-			panic(err)
-		}
-		return raw, "scion"
-	default:
-		return genScionPath(r), "scion"
-	}
-}
-
-func genSCION(r *vlib.Rand) (*slayers.SCION, string) {
-	p, tag := genPath(r)
-	s := &slayers.SCION{
-		Version: uint8(r.Intn(16)), TrafficClass: uint8(r.U64()), FlowID: uint32(r.U64()) & 0xfffff,
-		NextHdr: slayers.L4ProtocolType(nextHdrs[r.Intn(len(nextHdrs))]), PathType: p.Type(), Path: p,
-		DstAddrType: slayers.AddrType(r.Intn(16)), SrcAddrType: slayers.AddrType(r.Intn(16)),
-		DstIA: addr.IA(r.U64()), SrcIA: addr.IA(r.U64()),
-	}
-	if r.Chance(30) {
-		s.Version = 0
-	}
-	if r.Chance(10) {
-		s.NextHdr = slayers.L4ProtocolType(r.U64())
-	}
-	s.RawDstAddr = r.Bytes(s.DstAddrType.Length())
-	s.RawSrcAddr = r.Bytes(s.SrcAddrType.Length())
-	return s, tag
 }
 
 // ---- checks -----------------------------------------------------------------------------------
@@ -426,11 +239,11 @@ func main() {
 	nvals := e.N(1500, 30000)
 	allTrunc := e.N(25, 400)
 	for i := 0; i < nvals; i++ {
-		s, tag := genSCION(r)
+		s, tag := wiregen.GenSCION(r)
 		payload := r.Bytes(r.Intn(24))
 		// value -> bytes with the real serializer (FixLengths), and with the model (`ser`)
-		valDump := scionStr(s)
-		hdr, err, pn := realSerialize(s, payload, true)
+		valDump := wiregen.ScionStr(s)
+		hdr, err, pn := wiregen.RealSerialize(s, payload, true)
 		if pn != "" {
 			e.Violate("C18/serializer-panic", pn, map[string]any{"value": valDump})
 			continue
@@ -443,7 +256,7 @@ func main() {
 		hdrOnly := hdr[:len(hdr)-len(payload)]
 		e.Op(fmt.Sprintf("ser 1 %d %s", len(payload), valDump), vlib.Hex(hdrOnly), "ser/"+tag)
 		// value -> bytes -> value: same field values (with the lengths the serializer fixed)
-		fixedDump := scionStr(s) // SerializeTo updated HdrLen/PayloadLen in s
+		fixedDump := wiregen.ScionStr(s) // SerializeTo updated HdrLen/PayloadLen in s
 		got := decAnswer(hdr)
 		want := fmt.Sprintf("ok %s pld=%d", fixedDump, len(payload))
 		if got != want {
@@ -471,12 +284,12 @@ func main() {
 	}
 	// serializer error branch: EPIC with a PHVF/LHVF of the wrong length
 	for i := 0; i < e.N(20, 200); i++ {
-		raw, _ := genScionPath(r).ToRaw()
+		raw, _ := wiregen.GenScionPath(r).ToRaw()
 		ep := &epic.Path{PHVF: r.Bytes([]int{0, 3, 5, 4}[r.Intn(4)]), LHVF: r.Bytes([]int{4, 3, 5, 0}[r.Intn(4)]), ScionPath: raw}
-		s, _ := genSCION(r)
+		s, _ := wiregen.GenSCION(r)
 		s.Path, s.PathType = ep, ep.Type()
-		dump := scionStr(s)
-		out, err, pn := realSerialize(s, nil, true)
+		dump := wiregen.ScionStr(s)
+		out, err, pn := wiregen.RealSerialize(s, nil, true)
 		ans := vlib.Hex(out)
 		if pn != "" {
 			ans = pn
